@@ -13,6 +13,7 @@ def main(tier):
     models.sentinels(P, rep)
     dep.surface_pairing(P, rep)
     models.formulas(P, rep, thorough=(tier == "thorough"))
+    models.cooling_formulas(P, rep)
     rep.assumptions.append("Chapman geotherm, mass-conserving slab and tian2019 parameterisations have no independent closed form short "
                            "enough to serve as an oracle: not decided; numerical accuracy not decided")
     rep.explanation = ("Sibling cross-check of all replicated model classes in normal form (one closed form per family), operation "
